@@ -1073,8 +1073,17 @@ pub fn run(args: &Args) -> i32 {
                                 format!("`{}` was verified and cached as valid for commit position {}; offered at position {} (condition not met) the block was attached", c.name, s.tg.rc.get(&s.tip).number + 1, s.tg.rc.get(&s.tip).number),
                                 json!({"context": ci, "candidate": c.name}),
                             );
+                            // the same block is invalid for any node that did not verify the
+                            // transaction before: the verdict depends on the node's history
+                            c04.violation(
+                                &format!("history_dependence@{}.one_block_early_after_it_was_verified_for_a_later_position", c.name),
+                                format!("`{}` offered at commit position {} (its since / maturity condition is not met there) was attached by a node that had verified it for position {} before", c.name, s.tg.rc.get(&s.tip).number, s.tg.rc.get(&s.tip).number + 1),
+                                json!({"context": ci, "candidate": c.name}),
+                            );
                             let _ = n1.chain().truncate(pb.clone());
                         }
+                        c04.eval();
+                        c04.count("history_independence_checks");
                     }
                 }
             }
